@@ -64,7 +64,7 @@ def obligations(tier, what=WHAT):
         obs.append(Ob("v%d_response" % v, partial(sp.ob_v12_response, what=what, version=v), sp.LIFT_ALL, rs, to,
                       ve, ["none", "body"] + (["stream", "failed"] if v == 2 else []), bounds=rsb))
     obs.append(Ob("v3_request", partial(sp.ob_v3_request, what=what), sp.LIFT_ALL, rq, to, ve,
-                  ["none", "body", "stream", "readv", "stream_fails"],
+                  ["none", "body", "stream", "readv", "stream_fails", "unexpected_body"],
                   bounds=rqb + "; args from 3 concrete tuples"))
     obs.append(Ob("v3_response", partial(sp.ob_v3_response, what=what), sp.LIFT_ALL, rs, to, ve,
                   ["none", "body", "stream", "failed", "raises"], known=["C29-v3-stream-error-before-first-chunk"],
